@@ -2,6 +2,7 @@ package scen
 
 import (
 	"fmt"
+	"math/big"
 	"time"
 
 	"verif/mc"
@@ -14,6 +15,7 @@ func c13Scenario(name string, prefix []string) *Scenario {
 	g := BaseGenesis(
 		mc.AcctSpec{Name: "S1", Coins: Rich()}, mc.AcctSpec{Name: "P1", Coins: Rich()}, mc.AcctSpec{Name: "W1", Coins: Rich()},
 		mc.AcctSpec{Name: "A", Coins: Rich()}, mc.AcctSpec{Name: "R1", Coins: Rich()}, mc.AcctSpec{Name: "O", Coins: Rich()},
+		mc.AcctSpec{Name: "GR", Coins: Rich()},
 	)
 	g.Whitelist = []string{"P1"}
 	s := &Scenario{Name: name, Genesis: g, KeyTimeNs: false, Prefix: prefix}
@@ -26,6 +28,13 @@ func c13Scenario(name string, prefix []string) *Scenario {
 		{Name: "create(A->R1,600nund@10)", Dt: ms, Txs: tx1(model.Msg{Kind: model.StrCreate, From: "A", To: "R1", Den: mc.Nund, Amt: "600", Rate: 10})},
 		decide("S1", 1, 2),
 		{Name: "wait(30s)", Dt: 30 * time.Second},
+		{Name: "feegrant(GR->all)", Dt: ms, Txs: func(*model.State) []model.Tx {
+			var msgs []model.Msg
+			for _, to := range []string{"S1", "P1", "W1", "A", "R1", "O"} {
+				msgs = append(msgs, model.Msg{Kind: model.FeeGrant, From: "GR", To: to})
+			}
+			return []model.Tx{{Msgs: msgs}}
+		}},
 		// entitlement that moves: a whitelisting, a removal, a hand-over of the signer role by governance
 		{Name: "whitelist(S1,+A)", Dt: ms, Txs: tx1(model.Msg{Kind: model.EntWhitelist, From: "S1", To: "A", N: 1})},
 		{Name: "whitelist(S1,-P1)", Dt: ms, Txs: tx1(model.Msg{Kind: model.EntWhitelist, From: "S1", To: "P1", N: 2})},
@@ -165,6 +174,40 @@ func c13Scenario(name string, prefix []string) *Scenario {
 				}})
 		}
 	}
+	// the route a transaction takes through the pre-execution stage depends on more than its messages
+	// (a fee granter, a fee-carrying WRKChain/BEACON message riding along): whatever the route, a message
+	// naming x and signed with y's key takes no effect. Per message type: the forged transaction with a
+	// fee granter that granted nothing, with one that did grant x an allowance, and bundled behind y's own
+	// (genuine) WRKChain registration and BEACON registration
+	for _, k := range kinds {
+		x, ok := entitled[k]
+		if !ok {
+			continue
+		}
+		k, x := k, x
+		y := other(x, "O", "S1")
+		fan := func(_ *model.State, aux map[string]int) bool { return aux["base"] >= 1 }
+		for _, g := range []string{"R1", "GR"} {
+			g := g
+			if g == x {
+				continue
+			}
+			s.Actions = append(s.Actions, Action{Name: fmt.Sprintf("%s[names %s, signed by %s, fee granter %s]", k, x, y, g), Dt: ms, Enabled: fan,
+				Txs: func(m *model.State) []model.Tx {
+					msg, f := mk[k](x, m)
+					return []model.Tx{{Msgs: []model.Msg{msg}, Fee: f, Signers: []string{y}, FeeGranter: g}}
+				}})
+		}
+		for _, lead := range []string{model.WrkReg, model.BcnReg} {
+			lead := lead
+			s.Actions = append(s.Actions, Action{Name: fmt.Sprintf("%s by %s + %s[names %s], both signed by %s", lead, y, k, x, y), Dt: ms, Enabled: fan,
+				Txs: func(m *model.State) []model.Tx {
+					l, lf := mk[lead](y, m)
+					msg, f := mk[k](x, m)
+					return []model.Tx{{Msgs: []model.Msg{l, msg}, Fee: addFees(lf, f), Signers: []string{y, y}}}
+				}})
+		}
+	}
 	// the base letters are only for the prefix; the search itself is the fan-out
 	for i := 0; i < base; i++ {
 		s.Actions[i].Enabled = func(*model.State, map[string]int) bool { return false }
@@ -172,6 +215,30 @@ func c13Scenario(name string, prefix []string) *Scenario {
 	s.Actions = append(s.Actions, Action{Name: "begin-fanout", Dt: ms, Count: "base", Enabled: func(_ *model.State, aux map[string]int) bool { return aux["base"] < 1 }})
 	s.Prefix = append(append([]string{}, prefix...), "begin-fanout")
 	return s
+}
+
+// addFees: the sum of two fee maps (either may be nil).
+func addFees(a, b map[string]string) map[string]string {
+	if a == nil {
+		return b
+	}
+	if b == nil {
+		return a
+	}
+	out := map[string]string{}
+	for d, v := range a {
+		out[d] = v
+	}
+	for d, v := range b {
+		if cur, ok := out[d]; ok {
+			x, _ := new(big.Int).SetString(cur, 10)
+			y, _ := new(big.Int).SetString(v, 10)
+			out[d] = x.Add(x, y).String()
+		} else {
+			out[d] = v
+		}
+	}
+	return out
 }
 
 // alterMsg: the message with one field changed at a time (same acting party, so the same keys sign).
@@ -218,7 +285,7 @@ func alterMsg(m model.Msg) []model.Msg {
 
 func init() {
 	Checks["C13"] = func() *Check {
-		h1 := []string{"raise(P1,7)", "wreg(W1,chain-a)", "breg(W1,beacon-a)", "create(A->R1,600nund@10)"}
+		h1 := []string{"raise(P1,7)", "wreg(W1,chain-a)", "breg(W1,beacon-a)", "create(A->R1,600nund@10)", "feegrant(GR->all)"}
 		h2 := append(append([]string{}, h1...), "wrec(W1,#1,next)", "wait(30s)", "accept(S1,#1)", "wait(30s)", "wait(30s)", "wait(30s)")
 		h0 := []string{}
 		h3 := []string{"raise(P1,7)", "whitelist(S1,+A)", "whitelist(S1,-P1)", "gov(ent:signers=O;min=1)", "create(A->R1,600nund@10)"}
